@@ -232,6 +232,45 @@ theorem bus_inv_preserved (bus bus' : List VSign) (m : Msg) (r : Option Msg)
         · exact vstep_inv s _ m _ (hi s (by simp)) hs
         · exact ih rest' _ (fun u hu => hi u (by simp [hu])) hr t ht
 
+/-- Isolation in one statement: with distinct addresses, every sign on the bus ends up exactly
+    where it would be had it received the message alone. -/
+theorem each_sign_as_if_alone (bus bus' : List VSign) (m : Msg) (r : Option Msg)
+    (hd : (bus.map (·.addr)).Nodup) (h : busStep bus m = .ok (bus', r)) :
+    ∀ (i : Nat) (s : VSign), bus[i]? = some s → ∃ s' r', vstep s m = .ok (s', r') ∧ bus'[i]? = some s' := by
+  induction bus generalizing bus' r with
+  | nil => simp only [busStep] at h; cases h; simp
+  | cons s0 rest ih =>
+    have hd' : (rest.map (·.addr)).Nodup := by
+      simp only [List.map_cons, List.nodup_cons] at hd; exact hd.2
+    simp only [busStep] at h
+    split at h
+    · cases h
+    · rename_i s0' x hs
+      cases h
+      obtain ⟨hm, _⟩ := reply_addr s0 s0' m x hs
+      intro i t hi
+      cases i with
+      | zero => simp at hi; subst hi; exact ⟨s0', _, hs, by simp⟩
+      | succ i =>
+        simp at hi
+        -- a later sign: the message is addressed to the head sign, so alone it would ignore it
+        have hne : s0.addr ≠ t.addr := by
+          intro e
+          simp only [List.map_cons, List.nodup_cons] at hd
+          exact hd.1 (e ▸ List.mem_map.mpr ⟨t, List.mem_of_getElem? hi, rfl⟩)
+        exact ⟨t, none, C13.foreign_silent t m s0.addr hm hne, by simpa using hi⟩
+    · rename_i s0' hs
+      split at h
+      · cases h
+      · rename_i rest' r' hr
+        cases h
+        intro i t hi
+        cases i with
+        | zero => simp at hi; subst hi; exact ⟨s0', _, hs, by simp⟩
+        | succ i =>
+          simp only [List.getElem?_cons_succ] at hi ⊢
+          exact ih rest' _ hd' hr i t hi
+
 -- Non-vacuity: a two-sign bus with distinct addresses; the addressed sign answers.
 example : ([VSign.new 3 .manual, VSign.new 4 .automatic].map (·.addr)).Nodup := by decide
 example : busStep [VSign.new 3 .manual, VSign.new 4 .automatic] (.hello 4) =
